@@ -62,6 +62,11 @@ def check(ctx):
             C.violation(ctx, "pool-shutdown-" + cls[0], {"what": "the janitor pass overlapping Shutdown: " + cls[0],
                                                          "test": "TestVerifCleanupShutdown", "env": env, "report": cls[1]})
     if not any(v["kind"].startswith("pool-shutdown") for v in ctx.violations):
+        rc, out = c12.run_workload(ctx, binary, "TestVerifShutdownWindow", {})
+        cls = c12.classify(rc, out)
+        if cls:
+            C.violation(ctx, "pool-shutdown-" + cls[0], {"what": "connections handed back while Shutdown is closing an idle one: " + cls[0],
+                                                         "test": "TestVerifShutdownWindow", "report": cls[1]})
         rc, out = c12.run_workload(ctx, binary, "TestVerifCleanupWindow", {})
         cls = c12.classify(rc, out)
         if cls:
